@@ -52,7 +52,7 @@ def sample_cases(exports, rnd, budget):
         last = e["path"][-1]
         if last["m"] in ("fund", "wait", "longwait") or dev(e["c"], last) == 0:
             keep.append(e)
-        elif last["arg"] in ("toself", "tosender") and dev(e["c"], last) == 1:
+        elif (last["arg"] in ("toself", "tosender") or last["pair"] == "samerin") and dev(e["c"], last) == 1:
             keep.append(e)     # the recipient is the contract itself / the sender: in every lifecycle state
         else:
             groups[(e["c"], e["w"], json.dumps(e["path"][:-1]))].append(e)
@@ -230,7 +230,7 @@ def signature(row):
         if row.get("role") == "tail" and row.get("c") != row.get("mainc"):
             sig += ":" + str(row.get("c"))
     elif pair != "no":
-        sig += "+after-failed-%s" % ("terminate" if pair == "term" else "attempt")
+        sig += "+after-failed-%s" % ("terminate" if pair == "term" else "attempt-and-credit" if pair == "samerin" else "attempt")
     return sig
 
 
